@@ -164,10 +164,23 @@ def scan_trusted(lines):
 
 
 def process_unit(template):
-    """extract + verify one unit; returns a dict describing everything that happened"""
+    """extract + verify one unit.  If the generated text does not COMPILE and the compiler points into an inserted proof
+    hint (a hint may not fit a reshaped statement), the unit is processed once more with the hints of that function left
+    out (see DESIGN 3.1, lost anchors: hints only add checked facts)."""
+    res = _process_unit(template, set())
+    tries = 0
+    while res.get("hint_compile_error_in") and tries < 3:
+        tries += 1
+        skip = set(res.get("skipped_hint_fns", [])) | {res["hint_compile_error_in"]}
+        res = _process_unit(template, skip)
+    return res
+
+
+def _process_unit(template, skip_hint_fns):
     res = {"unit": os.path.basename(template).replace(".vx.rs", ""), "template": template, "status": "ok",
-           "errors": [], "functions": [], "undecided": None}
+           "errors": [], "functions": [], "undecided": None, "skipped_hint_fns": sorted(skip_hint_fns)}
     u = Unit(template, REPO)
+    u.skip_hint_fns = set(skip_hint_fns)
     try:
         with EXTRACT_LOCK:
             u.process()
@@ -187,6 +200,7 @@ def process_unit(template):
     res["rewrites"] = u.log
     res["dropped_hints"] = list(getattr(u, "dropped_hints", []))
     res["fn_meta"] = u.fns
+    res["tags_generated"] = sorted({t for l in lines for t in re.findall(r"//\[(C\d\d[^\]]*)\]", l)})
     trusted, bad = scan_trusted(lines)
     res["trusted_base"] = trusted
     if bad:
@@ -239,6 +253,13 @@ def process_unit(template):
             res["status"] = "undecided"
             res["undecided"] = "unsupported construct / type error: %s" % msg[:300]
             res["raw"] = d.get("rendered", "")[:2000]
+            # does the compiler point into an inserted proof hint?
+            for sp in d.get("spans", []):
+                ln = sp.get("line_start", 0) - 1
+                if 0 <= ln < len(origins) and origins[ln] and origins[ln][0] == "hint":
+                    for fm in u.fns:
+                        if fm["out_line_start"] <= ln + 1 <= fm["out_line_end"] and fm["name"] not in skip_hint_fns:
+                            res["hint_compile_error_in"] = fm["name"]
             continue
         spans = d.get("spans", [])
         e = {"message": msg, "rendered": d.get("rendered", ""), "tags": [], "fn": None, "real": None, "lines": []}
@@ -389,6 +410,7 @@ def main(argv):
                 "verified_functions": sorted(f["name"] for f in r["functions"] if f["success"]),
                 "failed": sorted(x for x in failed_fns if x),
                 "count": len([f for f in r["functions"] if f["success"]]),
+                "tags": r.get("tags_generated", []),
             }
         with open(BASELINE, "w") as f:
             json.dump(base, f, indent=1, sort_keys=True)
@@ -490,6 +512,13 @@ def report(prop, tier, seed, results, kres, t0):
             per_fn.append({"fn": f["name"], "mode": f["mode"], "smt_ms": f["ms"], "ok": f["success"], "backend": "verus/z3"})
         # baseline regression guard: fewer verified functions than frozen => undecided
         b = baseline.get(r["unit"])
+        if b and r["status"] == "ok":
+            # vacuity guard: a tagged clause of this property that was generated on the pinned tree and is no longer in the
+            # generated text means an obligation was lost (never a pass)
+            gone = [t for t in b.get("tags", []) if t.startswith(prop + ".") and t not in set(r.get("tags_generated", []))]
+            if gone:
+                undecided.append({"unit": r["unit"], "status": "undecided",
+                                  "undecided": "tagged obligation(s) no longer generated: %s" % ", ".join(gone[:5])})
         mine = attribute(r, prop, True)
         seen_eids = set()
         for e in mine:
